@@ -387,8 +387,14 @@ class Interp(object):
 
     def st_Assign(self, st, env):
         v = self.eval(st.value, env)
-        if self.cuts and env.func is not None and len(st.targets) == 1 and isinstance(st.targets[0], ast.Name):
-            hook = self.cuts.get((env.func.qualname, st.targets[0].id))
+        if self.cuts and env.func is not None and len(st.targets) == 1:
+            tg = st.targets[0]
+            key = None
+            if isinstance(tg, ast.Name):
+                key = tg.id
+            elif isinstance(tg, ast.Attribute) and isinstance(tg.value, ast.Name):
+                key = tg.value.id + '.' + tg.attr
+            hook = self.cuts.get((env.func.qualname, key)) if key else None
             if hook is not None:
                 v = hook(v, env)
         for tgt in st.targets:
